@@ -8,6 +8,7 @@ import (
 	"go/types"
 	"math/big"
 	"sort"
+	"strconv"
 	"strings"
 
 	"golang.org/x/tools/go/ssa"
@@ -21,7 +22,7 @@ func init() {
 	register("C12",
 		"Structural necessary conditions of C12 decided from /repo's syntax, constants and SSA — the thinnest claim of the nineteen, since the heart of C12 (correct rounding, half-unit error, monotonicity over 2^64 values) is numeric and NOT decided: (tables) the i-th multiplier of the metric table is 1000^i and of the binary table 1024^i with the SI/IEC prefix names, so the tables are non-empty, start at 1 and strictly increase; (exact) values below the first prefix are printed with an integer verb from the integer itself; (selection) the prefix loop is an ascending scan keeping the last prefix whose quotient is >= 1; (precision) for every branch of the precision switch, whole part in [L,U] with verb %.Pf gives at least three significant digits and at most five characters, U for the last prefix being floor((2^64-1)/multiplier); (unit-system) every report item whose unit is B is rendered with the 1024-based table and every other item with the 1000-based one.",
 		[]string{"fmt's %f rounding", "float64 conversion of uint64 (not decided)"},
-		ruleC12Tables, ruleC12Exact, ruleC12Selection, ruleC12Precision, ruleC12Mantissa, ruleC12WholePart, ruleC12UnitSystem, ruleC12Borrowed)
+		ruleC12Tables, ruleC12Exact, ruleC12Selection, ruleC12Precision, ruleC12EveryReturn, ruleC12Mantissa, ruleC12WholePart, ruleC12UnitSystem, ruleC12Borrowed)
 }
 
 // ---------------- C11 ----------------
@@ -184,7 +185,7 @@ func ruleC11SameValue(c *Ctx) {
 				loc = call
 			case cal == c.fn("/counts", "*Humaner", "Format"):
 				format = call
-			case cal.Name() == "formatRow":
+			case refName(cal) == "formatRow":
 				row = call
 			}
 		}
@@ -253,10 +254,40 @@ func ruleC11SameValue(c *Ctx) {
 	} else {
 		c.violate("C11.same-value", "Emit:value-column", row.Pos(), name, "the value/unit columns are not, on every path, the results of Humaner.Format(value, unit): some values would be printed without (or with another) scaling than the exact JSON value's human-readable rendering")
 	}
+	// inside the row formatter the two columns are printed as they arrive
+	if rowFn := row.Call.StaticCallee(); rowFn != nil && len(rowFn.Blocks) > 0 && len(rowFn.Params) == len(row.Call.Args) {
+		for ai, a := range row.Call.Args {
+			ex, ok := c.resolve(a).(*ssa.Extract)
+			if !ok || ex.Tuple != ssa.Value(format) {
+				continue
+			}
+			param := rowFn.Params[ai]
+			printed := false
+			for _, r := range *param.Referrers() {
+				mi, isMI := r.(*ssa.MakeInterface)
+				if !isMI {
+					continue
+				}
+				for _, rr := range *mi.Referrers() {
+					if st, isSt := rr.(*ssa.Store); isSt {
+						if _, isElem := st.Addr.(*ssa.IndexAddr); isElem {
+							printed = true
+						}
+					}
+				}
+			}
+			key := fmt.Sprintf("row:column-%d-unaltered", ex.Index)
+			if printed {
+				c.hold("C11.same-value", key, rowFn.Pos(), "the row formatter prints the humaner's "+map[int]string{0: "numeral", 1: "unit"}[ex.Index]+" as it receives it")
+			} else {
+				c.violate("C11.same-value", key, rowFn.Pos(), fnName(rowFn), "the row formatter does not print the humaner's "+map[int]string{0: "numeral", 1: "unit"}[ex.Index]+" as it receives it: the column is cut, padded or rewritten after scaling, so what is shown is no longer the rounded value")
+			}
+		}
+	}
 	// a citation (and with it a footnote) is created only for a row that is shown
 	allInstrs(emit, func(in ssa.Instruction) {
 		call, ok := in.(*ssa.Call)
-		if !ok || call.Call.StaticCallee() == nil || call.Call.StaticCallee().Name() != "CreateCitation" {
+		if !ok || call.Call.StaticCallee() == nil || refName(call.Call.StaticCallee()) != "CreateCitation" {
 			return
 		}
 		okShown := interesting != nil && guardedBy(call.Block(), func(cond ssa.Value, truth bool) bool { return cond == interesting && truth })
@@ -346,7 +377,7 @@ func ruleC11Empty(c *Ctx) {
 		}
 		cal := call.Call.StaticCallee()
 		q := calleeQ(&call.Call)
-		isWrite := strings.HasPrefix(q, "fmt.Fprint") || (cal != nil && c.inRuleScope(cal) && (strings.HasPrefix(cal.Name(), "format") || strings.HasPrefix(cal.Name(), "emit")))
+		isWrite := strings.HasPrefix(q, "fmt.Fprint") || (cal != nil && c.inRuleScope(cal) && (strings.HasPrefix(refName(cal), "format") || strings.HasPrefix(refName(cal), "emit")))
 		if !isWrite {
 			return
 		}
@@ -568,6 +599,19 @@ func ruleC12Exact(c *Ctx) {
 		}
 		if ok && (calleeQ(&call.Call) == "strconv.FormatUint") && call.Call.Args[0] == ssa.Value(n) {
 			okFmt = true
+		}
+		// a literal numeral on a path where the value is known to be that number
+		if lit, isLit := constStr(c.resolve(ret.Results[0])); isLit {
+			if guardedBy(ret.Block(), func(cond ssa.Value, truth bool) bool {
+				cmp, isEq := isCmp(cond, token.EQL, token.NEQ)
+				if !isEq || (cmp.Op == token.EQL) != truth || cmp.X != ssa.Value(n) {
+					return false
+				}
+				k, isK := constUint(cmp.Y)
+				return isK && strconv.FormatUint(k, 10) == lit
+			}) {
+				okFmt = true
+			}
 		}
 		if okFmt {
 			c.hold("C12.exact", "unit-prefix", ret.Pos(), "with multiplier 1 the integer itself is printed with an integer verb")
@@ -960,7 +1004,7 @@ func ruleC12Mantissa(c *Ctx) {
 		if len(p) > 0 && p[len(p)-1] == "Multiplier" {
 			good = true
 		}
-		if fld, ok := den.X.(*ssa.Field); ok && fieldOfVal(fld).Var.Name() == "Multiplier" {
+		if fld, ok := den.X.(*ssa.Field); ok && vname(fieldOfVal(fld).Var) == "Multiplier" {
 			good = true
 		}
 	}
@@ -1021,7 +1065,7 @@ func ruleC12WholePart(c *Ctx) {
 				if _, p := c.fieldPath(c.resolve(x.Y)); len(p) > 0 && p[len(p)-1] == "Multiplier" {
 					okQ = true
 				}
-				if fld, ok := x.Y.(*ssa.Field); ok && fieldOfVal(fld).Var.Name() == "Multiplier" {
+				if fld, ok := x.Y.(*ssa.Field); ok && vname(fieldOfVal(fld).Var) == "Multiplier" {
 					okQ = true
 				}
 			}
@@ -1051,7 +1095,7 @@ func ruleC12UnitSystem(c *Ctx) {
 	}
 	humIdx, unitIdx := -1, -1
 	for i, p := range newItem.Params {
-		if isNamed(p.Type(), modPath+"/counts", "Humaner") {
+		if isNamed(p.Type(), modPath+"/counts", "Humaner") || isPtrToNamed(p.Type(), modPath+"/counts", "Humaner") {
 			humIdx = i
 		}
 		if b, ok := p.Type().Underlying().(*types.Basic); ok && b.Kind() == types.String && humIdx >= 0 && unitIdx < 0 {
@@ -1070,10 +1114,13 @@ func ruleC12UnitSystem(c *Ctx) {
 		}
 		unit, okUnit := constStr(row.Args[unitIdx])
 		table := ""
-		if u, ok := c.resolve(row.Args[humIdx]).(*ssa.UnOp); ok && u.Op == token.MUL {
-			if g, ok := u.X.(*ssa.Global); ok && g.Pkg != nil && g.Pkg.Pkg.Path() == modPath+"/counts" {
-				table = g.Name()
-			}
+		hv := c.resolve(row.Args[humIdx])
+		if u, ok := hv.(*ssa.UnOp); ok && u.Op == token.MUL {
+			hv = u.X
+		}
+		// the table itself (a copy of it) or its address
+		if g, ok := hv.(*ssa.Global); ok && g.Pkg != nil && g.Pkg.Pkg.Path() == modPath+"/counts" {
+			table = g.Name()
 		}
 		switch {
 		case !okUnit || table == "":
@@ -1110,4 +1157,50 @@ func ruleC12Borrowed(c *Ctx) {
 	defer func() { c.RuleAlias = nil }()
 	ruleC11SameValue(c)
 	ruleC05Render(c)
+}
+
+// ruleC12EveryReturn: FormatNumber has two ways of producing a numeral, the
+// exact integer (multiplier 1) and the mantissa rounded by the precision
+// switch; a third path (an "integer fast path" with its own rounding) is
+// outside what C12.precision and C12.mantissa decide.
+func ruleC12EveryReturn(c *Ctx) {
+	f := c.fn("/counts", "*Humaner", "FormatNumber")
+	if f == nil {
+		return
+	}
+	n := f.Params[1]
+	nRet := 0
+	for _, ret := range returnsOf(f) {
+		if len(ret.Results) == 0 {
+			continue
+		}
+		nRet++
+		exact := guardedBy(ret.Block(), func(cond ssa.Value, truth bool) bool {
+			cmp, ok := isCmp(cond, token.EQL, token.NEQ)
+			if !ok || (cmp.Op == token.EQL) != truth {
+				return false
+			}
+			k, ok := constUint(cmp.Y)
+			return ok && (k == 1 || cmp.X == ssa.Value(n))
+		})
+		rounded := false
+		for _, v := range c.resultValues(ret, 0) {
+			if call, ok := c.resolve(v).(*ssa.Call); ok {
+				switch calleeQ(&call.Call) {
+				case "fmt.Sprintf":
+					if _, isConst := constStr(call.Call.Args[0]); !isConst {
+						rounded = true
+					}
+				case "strconv.FormatFloat":
+					rounded = true
+				}
+			}
+		}
+		if !exact && !rounded {
+			c.violate("C12.precision", "every-return@"+c.lineKey(ret), ret.Pos(), fnName(f), "a numeral is produced on a path that is neither the exact integer rendering (multiplier 1) nor the mantissa rounded by the precision switch: its digits and its carry into the next power of ten are decided by code of its own")
+		}
+	}
+	if nRet > 0 && c.seenPrefix("C12.precision", "every-return@") == nil {
+		c.hold("C12.precision", "every-return", f.Pos(), fmt.Sprintf("each of the %d returns is the exact integer or the precision-switch rendering of the mantissa", nRet))
+	}
 }
